@@ -5,7 +5,7 @@ import json
 from ..core import Acc, Violation, guarded, run_hypothesis, shard_seed, describe_exc
 
 PROPERTY = 'C17'
-RULE = ('part 1: for every mapped zone and every entry T of pytz\'s UTC transition table of that zone (quick: first 3 + last 6 '
+RULE = ('part 1: for every mapped zone and every entry T of pytz\'s UTC transition table of that zone (quick: first 5 + last 14 '
         'per zone; thorough: all), each delta in {-1800,-1,0,+1,+1800} s and microsecond in {0,1,999999}: '
         'dt=(T+delta).astimezone(zone) is written by dump_scalar in ZINC and JSON and read back; the result must denote the '
         'same instant, have the same UTC offset, map to the same Haystack zone name, and the text must carry that name; a '
@@ -215,8 +215,8 @@ def run(part, args, env):
         n = 0
         for z in args['zones']:
             tr = transitions(zmap()[z])
-            if not args['all'] and len(tr) > 9:
-                tr = tr[:3] + tr[-6:]
+            if not args['all'] and len(tr) > 19:
+                tr = tr[:5] + tr[-14:]
             pts = [(t + datetime.timedelta(seconds=d), True) for t in tr for d in DELTAS]
             pts += [(datetime.datetime(2021, 1, 15, 12), False), (datetime.datetime(1900, 1, 1), False),
                     (datetime.datetime(9000, 1, 1), False), (datetime.datetime(5, 5, 5), False)]
